@@ -611,8 +611,14 @@ class Compiler(compiler.Compiler):
         elif type_name == 'GeneralizedTime':
             compiled = GeneralizedTime(name)
         elif type_name == 'BIT STRING':
-            minimum, maximum, _ = self.get_size_range(type_descriptor,
-                                                      module_name)
+            minimum, maximum, has_extension_marker = self.get_size_range(
+                type_descriptor,
+                module_name)
+
+            if has_extension_marker:
+                # Not a fixed size: values outside the root are allowed.
+                minimum = maximum = None
+
             compiled = BitString(name, minimum, maximum)
         elif type_name == 'ANY':
             compiled = Any(name)
